@@ -35,6 +35,10 @@ static std::string get_readable_ip_address(std::string& wire_ip, bool ipv6)
         buflen = INET_ADDRSTRLEN + 4;
     }
 
+    // Wire format address has to be exactly 4 (IPv4) or 16 (IPv6) bytes long
+    if (wire_ip.size() != (ipv6 ? 16 : 4))
+        return wire_ip;
+
     char addrBuf[buflen];
     auto ret = inet_ntop(ipv, wire_ip.data(), addrBuf, sizeof(addrBuf));
 
@@ -57,13 +61,12 @@ static std::string get_readable_dname(std::string& wire_dname)
     std::string dname = wire_dname;
 
     uint8_t labels = 0;
-    int size = 0;
     auto label_len = static_cast<uint8_t>(dname[0]);
     auto pos = static_cast<uint64_t>(label_len + 1);
 
     while (label_len != 0) {
-        size += label_len;
-        if (size > dname.size())
+        // The next label length byte has to lie inside the domain name
+        if (pos >= dname.size())
             return wire_dname;
 
         labels++;
